@@ -34,6 +34,47 @@ def run_rules(check, ctx) -> None:
             continue
 
 
+def thorough_extras(ctx, prop: str) -> None:
+    """Thorough tier: validate the checker itself for this property (never changes the verdict).
+
+    * every mutant of glint/mutants for this property must be reported (SELFTEST-SURVIVOR otherwise);
+    * every automatic silent twin (reformat, rename-locals) of every consulted file must stay green.
+    Both run on scratch copies outside /repo and /verif.
+    """
+    from concurrent.futures import ProcessPoolExecutor
+
+    from glint import selftest
+    from glint import twins
+
+    muts = [m for m in selftest.load_mutants() if m["prop"] == prop]
+    jobs = []
+    consulted = sorted(ctx.repo.consulted)
+    for rel in consulted:
+        for kind in ("reformat", "rename-locals"):
+            jobs.append((rel, kind, {prop}))
+    with ProcessPoolExecutor(max_workers=os.cpu_count() or 4) as ex:
+        mres = list(ex.map(selftest.run_one, muts))
+        tres = list(ex.map(twins.run_one, jobs))
+    survivors = [r for r in mres if r["status"] != "OK"]
+    for r in survivors:
+        print(f"SELFTEST-{r['status']} {prop} {r['id']} expect={r['expect']} rule={r['rule']}")
+    alarms = [line for r in tres for line in r if line.startswith("TWIN-FALSE-ALARM")]
+    for line in alarms:
+        print(line)
+    ctx.selfvalidation = {
+        "mutants": len(muts),
+        "mutants_firing_expected": sum(1 for m in muts if m["expect"] == "fire"),
+        "silent_twins_handwritten": sum(1 for m in muts if m["expect"] == "silent"),
+        "as_expected": len(mres) - len(survivors),
+        "not_as_expected": [f"{r['id']}:{r['status']}" for r in survivors],
+        "automatic_twins": len(jobs),
+        "automatic_twin_false_alarms": alarms,
+        "samples": [f"{m['id']} ({m['expect']}, {m.get('rule', '-')})" for m in muts[:8]],
+    }
+    print(f"selfvalidation {prop}: {len(muts)} hand written variants ({len(survivors)} not as expected), "
+          f"{len(jobs)} automatic twins ({len(alarms)} false alarms)")
+
+
 def main(argv: list[str] | None = None) -> int:
     ap = argparse.ArgumentParser(prog="check")
     ap.add_argument("prop")
@@ -68,6 +109,8 @@ def main(argv: list[str] | None = None) -> int:
                 return 2
         if not ctx.obligations:
             raise AnalysisError(f"{prop}: no obligation was generated" + "; ".join(ctx.shortfalls))
+        if args.tier == "thorough" and only is None:
+            thorough_extras(ctx, prop)
         rc = finish(ctx, t0, seed, repo.stats(), replay_only=only is not None)
         if ctx.shortfalls and rc == 0:
             for m in ctx.shortfalls:
